@@ -50,7 +50,9 @@ Fix(c) == LET b == IF c.dir = "/" THEN "" ELSE c.dir IN
              [p |-> b \o "/m.mbox", k |-> "file"], [p |-> b \o "/s.pyg", k |-> "file"],
              [p |-> "/abs", k |-> "dir"], [p |-> "/abs/sub", k |-> "dir"], [p |-> "/abs/sub/z", k |-> "file"],
              [p |-> "/abs/a.zip", k |-> "file"] >>
-GM(c, ls, eol) == [kind |-> c.kind, sel |-> c.sel, dir |-> c.dir, lines |-> ls, eol |-> eol, srv |-> Srv, fixtures |-> Fix(c)]
+GM(c, ls, eol) == [kind |-> c.kind, sel |-> c.sel, dir |-> c.dir, lines |-> ls, eol |-> eol, open |-> FALSE, srv |-> Srv, fixtures |-> Fix(c)]
+\* the same map saved by an editor that does not terminate the final line (readline() returns it all the same)
+Open(g) == [g EXCEPT !.open = TRUE]
 
 Seq1 == {<<a>> : a \in Shapes}
 Seq2(S) == {<<a, b>> : a \in S, b \in S}
@@ -67,6 +69,8 @@ Cases ==
     {GM(c, ls, eol) : c \in Contexts, ls \in Seq1 \cup {<<>>}, eol \in {"\n", "\r\n"}}
     \cup {GM(Ctx("dir", "/d", "/d"), ls, "\n") : ls \in Seq2(Shapes)}
     \cup {GM(Ctx("file", "/d/m.gophermap", "/d"), ls, "\n") : ls \in Seq2(IF Tier = "quick" THEN InfoShapes \cup {"0Rel\tx", "1Abs\t/abs", "0Thru\tx/extra"} ELSE Good)}
+    \cup {Open(GM(c, ls, eol)) : c \in Contexts, ls \in {x \in Seq1 : x[1] # ""}, eol \in {"\n", "\r\n"}}
+    \cup {Open(GM(Ctx("dir", "/d", "/d"), ls, "\n")) : ls \in {x \in Seq2(IF Tier = "quick" THEN InfoShapes \cup {"0Rel\tx", "1Abs\t/abs"} ELSE Good) : x[2] # ""}}
     \cup (IF Tier = "quick" THEN {}
           ELSE {GM(c, ls, "\r\n") : c \in {Ctx("dir", "/", "/"), Ctx("dir", "/d/e", "/d/e")}, ls \in Seq2(Good)}
                \cup {GM(Ctx("dir", "/d", "/d"), ls, "\n") : ls \in Seq3(Core)})
